@@ -4,8 +4,14 @@ C19 — gen writes a valid module that exports exactly what it generated; never 
 C19.guard    : in __main__.main every path to gen(...) passes the refuse-if-exists test.
 C19.append   : every write reachable from gen() outside the `phase > 0` arm opens in append mode.
 C19.names    : the value appended to __all__ and the name handed to the emitter are the same
-               templated expression (modulo wrappers that are the identity on identifiers);
+               templated expression, sanitising wrapper included;
                one unconditional append per input element.
+C19.sanitise : ensure_valid_identifier (applied to both sides of C19.names) is the identity on every ASCII
+               identifier that is not a hard keyword: three-valued evaluation of its branch conditions under
+               that assumption; every return / rewrite on a path such a name can take must be the argument.
+C19.perentry : no function reachable from get_functions_and_classes writes module-level state or memoises
+               (C10's module-state rules re-run on that slice): the parser / emitter chosen for an entry
+               depends on that entry only.
 C19.dispatch : for each of the CLI's emit kinds: sanitise_emit_name -> get_emitter resolves,
                get_emit_kwarg has the key, supplied keywords are parameters of the resolved emitter
                and every required parameter of the emitter is supplied.
@@ -23,7 +29,6 @@ from ..fold import ModuleEnv, Unknown
 from ..walker import GuardWalker
 from ..writes import WriteModel
 
-IDENTITY_ON_IDENTIFIERS = frozenset(("ensure_valid_identifier",))
 SYMBOL_CTORS = frozenset(("ClassDef", "FunctionDef", "AsyncFunctionDef"))
 
 
@@ -206,10 +211,9 @@ def run(ctx):
             ok_if = isinstance(inner.body, ast.Constant) and inner.body.value is None
             ctx.need(ok_if, "unexpected conditional around the emitter name")
             inner = inner.orelse
-        wrappers = []
-        while isinstance(inner, ast.Call) and isinstance(inner.func, ast.Name) and inner.func.id in IDENTITY_ON_IDENTIFIERS and len(inner.args) == 1:
-            wrappers.append(inner.func.id)
-            inner = inner.args[0]
+        # the two sides must be the same expression INCLUDING the sanitising wrapper: the wrapper is not
+        # the identity on names that are not identifiers ('my.config.json' -> 'myconfigjson', 'class' ->
+        # 'class_'), so a wrapper on one side only makes __all__ list a name the module does not define
         emit_expr = norm(inner)
         same = emit_expr == all_expr
         ctx.ob(
@@ -235,6 +239,167 @@ def run(ctx):
             ctx.ob("C19.names", gfc, c, ok, "" if ok else "get_emit_kwarg receives name_tpl={} name={}".format(bound.get("name_tpl"), bound.get("name")))
 
     ctx.section(_sec_names)
+
+    def _sec_sanitise():
+        # --------------------------------------------------------- sanitise
+        # Both sides of C19.names go through ensure_valid_identifier; "named by the name template" then needs
+        # that function to be the identity on every ASCII identifier that is not a hard keyword. Decided by
+        # evaluating its branch conditions three-valued under that assumption on the argument.
+        import string as _string
+
+        evi = index.func("cdd.shared.pure_utils.ensure_valid_identifier")
+        ctx.need(len(evi.params) == 1, "ensure_valid_identifier no longer takes exactly one argument")
+        prm = evi.params[0]
+        alpha = set(_string.ascii_letters + _string.digits + "_")
+        local = {}
+        checked = [0]
+
+        def tv(t):
+            """truth of a test for: prm is a non-empty str over [A-Za-z0-9_], first char not a digit, not a keyword"""
+            if isinstance(t, ast.UnaryOp) and isinstance(t.op, ast.Not):
+                v = tv(t.operand)
+                return None if v is None else (not v)
+            if isinstance(t, ast.Name) and t.id == prm:
+                return True
+            if isinstance(t, ast.BoolOp):
+                vs = [tv(v) for v in t.values]
+                if isinstance(t.op, ast.Or):
+                    return True if any(v is True for v in vs) else (False if all(v is False for v in vs) else None)
+                return False if any(v is False for v in vs) else (True if all(v is True for v in vs) else None)
+            if isinstance(t, ast.Call):
+                callee = index.callee(evi.mod, t, evi) or ""
+                if callee == "keyword.iskeyword" and [norm(x) for x in t.args] == [prm] and not t.keywords:
+                    return False
+                txt = norm(t)
+                if txt in tuple("{}[0].{}()".format(prm, m) for m in ("isdigit", "isnumeric", "isdecimal")):
+                    return False
+                if txt in ("{}.isidentifier()".format(prm), "{}.isascii()".format(prm)):
+                    return True
+            return None
+
+        def charset_of(e):
+            try:
+                v = env.in_module(evi.mod, e, local)
+            except Unknown:
+                return None
+            try:
+                return set(v)
+            except TypeError:
+                return None
+
+        def identity(e):
+            """is `e` equal to prm for every argument in the assumed domain?"""
+            if isinstance(e, ast.Name) and e.id == prm:
+                return True
+            if isinstance(e, ast.BoolOp) and isinstance(e.op, ast.Or) and e.values:
+                return identity(e.values[0])
+            if isinstance(e, ast.Call) and norm(e.func) == "str" and len(e.args) == 1:
+                return identity(e.args[0])
+            if isinstance(e, ast.Call) and isinstance(e.func, ast.Attribute) and e.func.attr == "join" and isinstance(e.func.value, ast.Constant) and e.func.value.value == "" and len(e.args) == 1:
+                a = e.args[0]
+                if isinstance(a, ast.Call) and norm(a.func) == "filter" and len(a.args) == 2 and norm(a.args[1]) == prm:
+                    pred = a.args[0]
+                    keep = None
+                    if isinstance(pred, ast.Attribute) and pred.attr == "__contains__":
+                        keep = charset_of(pred.value)
+                    elif isinstance(pred, ast.Lambda) and isinstance(pred.body, ast.Compare) and len(pred.body.ops) == 1 and isinstance(pred.body.ops[0], ast.In):
+                        keep = charset_of(pred.body.comparators[0])
+                    return keep is not None and alpha <= keep
+                if isinstance(a, (ast.GeneratorExp, ast.ListComp)) and len(a.generators) == 1 and norm(a.generators[0].iter) == prm and norm(a.elt) == norm(a.generators[0].target):
+                    g = a.generators[0]
+                    if not g.ifs:
+                        return True
+                    if len(g.ifs) == 1 and isinstance(g.ifs[0], ast.Compare) and isinstance(g.ifs[0].ops[0], ast.In):
+                        keep = charset_of(g.ifs[0].comparators[0])
+                        return keep is not None and alpha <= keep
+            return False
+
+        def walk(stmts, chain):
+            for st in stmts:
+                if isinstance(st, ast.If):
+                    v = tv(st.test)
+                    if v is True:
+                        if walk(st.body, chain):
+                            return True
+                    elif v is False:
+                        if walk(st.orelse, chain):
+                            return True
+                    else:
+                        a_ = walk(st.body, chain + [short(st.test, 60)])
+                        b_ = walk(st.orelse, chain + ["not ({})".format(short(st.test, 50))])
+                        if a_ and b_:
+                            return True
+                    continue
+                if isinstance(st, ast.Return):
+                    ok_ = st.value is not None and identity(st.value)
+                    checked[0] += 1
+                    ctx.ob(
+                        "C19.sanitise",
+                        evi,
+                        st,
+                        ok_,
+                        ""
+                        if ok_
+                        else "ensure_valid_identifier can return something other than its argument for a valid, non-keyword ASCII identifier"
+                        + (" (branch `{}` is not known to be false for such names)".format(" and ".join(chain)) if chain else "")
+                        + ": the generated symbol is then not named by the name template",
+                    )
+                    return True
+                if isinstance(st, (ast.Assign, ast.AnnAssign)) and st.value is not None:
+                    tg = st.targets if isinstance(st, ast.Assign) else [st.target]
+                    for t_ in tg:
+                        if isinstance(t_, ast.Name) and t_.id == prm:
+                            ok_ = identity(st.value)
+                            ctx.ob(
+                                "C19.sanitise",
+                                evi,
+                                st,
+                                ok_,
+                                "" if ok_ else "the argument is rewritten on a path a valid, non-keyword ASCII identifier can take"
+                                + (" (branch `{}`)".format(" and ".join(chain)) if chain else ""),
+                            )
+                        elif isinstance(t_, ast.Name):
+                            try:
+                                local[t_.id] = env.in_module(evi.mod, st.value, local)
+                            except Unknown:
+                                local.pop(t_.id, None)
+                    continue
+                if isinstance(st, ast.Expr) and isinstance(st.value, ast.Constant):
+                    continue
+                if isinstance(st, (ast.Raise,)):
+                    ctx.ob("C19.sanitise", evi, st, False, "ensure_valid_identifier raises on a path a valid identifier can take")
+                    return True
+                ctx.need(False, "ensure_valid_identifier contains a statement the sanitiser rule does not model: {}".format(short(st, 60)))
+            return False
+
+        walk(evi.node.body, [])
+        ctx.need(checked[0] >= 1, "no return of ensure_valid_identifier lies on a path a valid identifier can take")
+
+    ctx.section(_sec_sanitise)
+
+    def _sec_perentry():
+        # --------------------------------------------------------- perentry
+        # "each generated symbol has the interface of ITS source entry": the per-entry pipeline
+        # (get_functions_and_classes -> get_parser / get_emitter / parser / emitter) must not carry state from
+        # one entry (or one gen call) to the next. Re-runs C10's module-state and memoisation rules on exactly
+        # the functions reachable from get_functions_and_classes.
+        from . import c10
+
+        # get_parser / get_emitter dispatch through import_module + getattr, which the reference graph does not
+        # follow: every function of a `cdd.<kind>.parse` / `cdd.<kind>.emit` module is a possible target
+        targets = [
+            f.qual
+            for f in index.nontest_funcs()
+            if f.outer is None and f.mod.name.count(".") == 2 and f.mod.name.rpartition(".")[2] in ("parse", "emit")
+        ]
+        ctx.count("perentry_dispatch_targets", len(targets))
+        reach = graph.reachable([gfc.qual] + targets)
+        ctx.count("perentry_functions", len(reach))
+        ctx.need(len(reach) >= 50, "the per-entry pipeline of gen shrank to {} functions: call graph no longer resolves it".format(len(reach)))
+        v = ctx.view(lambda w: getattr(w, "qual", None) in reach, rule="C19.perentry", prefix="perentry_")
+        c10._modstate(v)
+
+    ctx.section(_sec_perentry)
 
     def _sec_dispatch():
         nonlocal a, k, n, ok, r
